@@ -273,6 +273,29 @@ Section Compose.
       rewrite E. cbn [obind]. destruct (Nat.ltb 254 (length segs)); [discriminate|]. now apply compose_parts_no_fuel.
   Qed.
 
+  (* ---- an error the encoder does not give on any piece of the text is not given by Compose either ---- *)
+  Lemma compose_parts_err_local ref total e : e <> ESize ->
+    forall segs seq, (forall s, In s segs -> enc s <> Err e) -> cparts ref total seq segs <> Err e.
+  Proof.
+    intros He. induction segs as [|s rest IH]; intros seq Hn; cbn [compose_parts]; [discriminate|].
+    pose proof (Hn s (or_introl eq_refl)) as Hs. destruct (enc s) as [p|e'|]; cbn [obind]; [|congruence|discriminate].
+    destruct (Nat.ltb max_sm_len (udh_len [concat_ie ref total ((seq + 1) mod 256)] + plen p)); [congruence|].
+    specialize (IH ((seq + 1) mod 256)%N (fun s' Hs' => Hn s' (or_intror Hs'))).
+    destruct (compose_parts P plen enc ref total ((seq + 1) mod 256) rest); cbn [obind]; congruence.
+  Qed.
+
+  Theorem compose_err_local ref t e : e <> ESize -> e <> ECount -> e <> EFuel ->
+    (forall s, (forall r, In r s -> In r t) -> enc s <> Err e) -> cmp ref t <> Err e.
+  Proof.
+    intros H1 H2 H3 Hn. unfold compose. destruct (Nat.leb (text_len w t) max_sm_len).
+    - pose proof (Hn t (fun r Hr => Hr)) as Ht. destruct (enc t) as [p|e'|]; cbn [obind]; [|congruence|discriminate].
+      destruct (Nat.ltb max_sm_len (plen p)); congruence.
+    - destruct (split_outcome w (max_sm_len - 1 - hdr_len ref) t) as [[segs E]|E]; rewrite E; cbn [obind]; [|congruence].
+      destruct (Nat.ltb 254 (length segs)); [congruence|].
+      apply compose_parts_err_local; [exact H1|]. intros s Hs. apply Hn. intros r Hr.
+      rewrite <- (split_concat w w_pos _ _ _ E). apply in_concat. exists s. split; assumption.
+  Qed.
+
   (* ---- the size check never fires when Splitter.Len bounds the encoder ---- *)
   Hypothesis enc_len_sound : forall s p, enc s = Ok p -> plen p <= (total w s + 7) / 8.
   Hypothesis enc_no_esize : forall s, enc s <> Err ESize.
